@@ -78,7 +78,19 @@ fcppt::optional::object<std::basic_string<Out>> codecvt(
     case std::codecvt_base::partial:
       if (written == 0U)
       {
-        return optional_return_type{return_type(buf.begin(), buf.end())};
+        // No progress was made. Either the output has no room for the next
+        // character yet, or the input ends with an incomplete sequence.
+        typename buffer_type::size_type const min_size{
+            fcppt::cast::to_unsigned(conv.max_length())};
+
+        if (buf.write_size() >= min_size)
+        {
+          return optional_return_type{};
+        }
+
+        buf.resize_write_area(min_size);
+
+        continue;
       }
 
       buf.resize_write_area(buf.read_size() * 2U);
